@@ -235,3 +235,44 @@ Theorem lambda_extra :
   filter (fun c => is_throw (rule_at visitor_rules c) && negb (is_throw (rule_at lambda_rules c))) all_codes
   = [TC_Infty; TC_NaN; TC_Symbol; TC_Dummy; TC_Sign; TC_Floor; TC_Ceiling; TC_Contains; TC_Not; TC_And; TC_Or; TC_Xor; TC_Truncate].
 Proof. vm_compute. reflexivity. Qed.
+
+(* ---- the combined statements used by the obligation files ---- *)
+Theorem evalrule_ideal :
+  forall (gamma_R lgamma_R erf_R erfc_R : R -> R) (lit_other : lit -> R),
+    table_ideal gamma_R lgamma_R erf_R erfc_R lit_other visitor_rules /\
+    table_ideal gamma_R lgamma_R erf_R erfc_R lit_other dispatch_rules /\
+    pow_meets gamma_R lgamma_R erf_R erfc_R lit_other (lookup_rule visitor_rules TC_Pow) /\
+    pow_meets gamma_R lgamma_R erf_R erfc_R lit_other (lookup_rule dispatch_rules TC_Pow) /\
+    const_meets gamma_R lgamma_R erf_R erfc_R lit_other (lookup_rule visitor_rules TC_Constant) /\
+    const_meets gamma_R lgamma_R erf_R erfc_R lit_other (lookup_rule dispatch_rules TC_Constant).
+Proof.
+  intros.
+  split; [ apply visitor_table_ideal | ].
+  split; [ apply dispatch_table_ideal | ].
+  split; [ apply visitor_pow_ideal | ].
+  split; [ apply dispatch_pow_ideal | ].
+  split; [ apply visitor_const_ideal | apply dispatch_const_ideal ].
+Qed.
+
+Theorem lambda_rules_ideal :
+  forall (gamma_R lgamma_R erf_R erfc_R : R -> R) (lit_other : lit -> R),
+    table_ideal gamma_R lgamma_R erf_R erfc_R lit_other lambda_rules /\
+    pow_meets gamma_R lgamma_R erf_R erfc_R lit_other (lookup_rule lambda_rules TC_Pow).
+Proof. intros. split; [ apply lambda_table_ideal | apply lambda_pow_ideal ]. Qed.
+
+Theorem dispatch_agree_tables :
+  forallb (fun c => is_throw (rule_at dispatch_rules c) || rule_agree (rule_at visitor_rules c) (rule_at dispatch_rules c))
+          all_codes = true
+  /\ filter (fun c => is_throw (rule_at dispatch_rules c) && negb (is_throw (rule_at visitor_rules c))) all_codes
+     = [TC_NumberWrapper; TC_FunctionWrapper; TC_Piecewise; TC_BooleanAtom; TC_UnevaluatedExpr].
+Proof. split; [ exact dispatch_agree | exact dispatch_lacks ]. Qed.
+
+Theorem lambda_agree_tables :
+  forallb (fun c => is_throw (rule_at visitor_rules c) || is_throw (rule_at lambda_rules c)
+                    || existsb (N.eqb c) lambda_differs
+                    || rule_agree (rule_at visitor_rules c) (rule_at lambda_rules c)) all_codes = true
+  /\ filter (fun c => is_throw (rule_at lambda_rules c) && negb (is_throw (rule_at visitor_rules c))) all_codes
+     = [TC_NumberWrapper; TC_FunctionWrapper]
+  /\ filter (fun c => is_throw (rule_at visitor_rules c) && negb (is_throw (rule_at lambda_rules c))) all_codes
+     = [TC_Infty; TC_NaN; TC_Symbol; TC_Dummy; TC_Sign; TC_Floor; TC_Ceiling; TC_Contains; TC_Not; TC_And; TC_Or; TC_Xor; TC_Truncate].
+Proof. split; [ exact lambda_agree | split; [ exact lambda_lacks | exact lambda_extra ] ]. Qed.
